@@ -70,8 +70,9 @@ def main():
         popov = 7.0e6 if ncase[0] % 5 == 0 else None
         sopt = {"scale": "country"} if popov is None else {"scale": "country", "population": popov}
         passed = list(lst)
+        console = io.StringIO()
         try:
-            with contextlib.redirect_stdout(io.StringIO()):
+            with contextlib.redirect_stdout(console):
                 world, net_pop, net_pop_fed, results = runner.run_model_no_trade(
                     title="agg", create_pptx_with_all_countries=False, scenario_option=dict(sopt), countries_list=passed,
                     return_results=True)
@@ -100,6 +101,11 @@ def main():
             want_fed = sum(popov * min(1.0, ratio[x]) for x in ran_ok)
         if abs(net_pop - want_tot) > 1e-6 * max(1, want_tot) or abs(net_pop_fed - want_fed) > 1e-6 * max(1, want_fed):
             bad("AggregateIsCappedMean:%s" % form, dict(case=c, got=[float(net_pop), float(net_pop_fed)], want=[want_tot, want_fed]))
+        # the fraction the runner itself announces (console, map title): the same quotient to four decimals, "nan" only when nobody was considered
+        said = [ln.split(":", 1)[1].strip() for ln in console.getvalue().splitlines() if ln.startswith("Fraction of this population fed:")]
+        want_said = "nan" if want_tot <= 0 else str(round(float(want_fed) / float(want_tot), 4))
+        if len(said) != 1 or (said[0] != want_said and not (said[0] != "nan" and want_said != "nan" and abs(float(said[0]) - float(want_said)) <= 1.5e-4)):
+            bad("AggregateIsCappedMean:%s:announced-fraction" % form, dict(case=c, said=said, want=want_said))
         if not (0 <= net_pop_fed <= net_pop * (1 + 1e-12)):
             bad("Within01:%s" % form, dict(case=c, got=[float(net_pop), float(net_pop_fed)]))
         rep["calls"] += len(called)
